@@ -28,13 +28,17 @@ func mcWorlds(tier string) []explore.Case {
 	consTexts := []string{`"foo"`, `true`, `decl.foo`, `{ foo = "x", bar = true }`, `["a", "b"]`, `fn("a", decl.foo)`, `"a${decl.foo.bar}b"`,
 		`provider::aws::x`, `true ? decl.foo : "b"`, `[for v in decl.foo : v if v]`, `{ fo`, `list(string)`, `decl.foo[decl.foo.bar]`,
 		// blanks inside a traversal, in a template, around operators: prefixes the queries may want to normalise
-		`decl. fo`, `"${decl .fo}"`, `decl.foo [ 0 ]`}
+		`decl. fo`, `"${decl .fo}"`, `decl.foo [ 0 ]`,
+		// a for expression whose value mentions declarations, an empty value
+		`{for k, v in decl.foo : k => decl.foo.bar}`, ``}
 	want := map[string]bool{}
 	for _, n := range []string{"LiteralType{string}", "LiteralType{object}", "LiteralValue{\"foo\"}", "Keyword{kwd}", "TypeDeclaration",
 		"Reference{OfType string}", "Reference{Address sa}", "Any{string}", "Any{object}", "Any{dynamic}", "Any{list_string}",
 		"List{Any{string}}", "Set{LiteralType{string}}", "Map{Any{string}}", "Tuple{Any{string},LiteralType{bool}}",
 		"Object{foo:Any{string},bar:LiteralType{bool}}", "Object{foo:LiteralType{string},bar:LiteralType{bool},interp}",
-		"OneOf{Any{string},LiteralType{bool}}", "OneOf{LiteralType{bool},Reference{OfType string}}"} {
+		"OneOf{Any{string},LiteralType{bool}}", "OneOf{LiteralType{bool},Reference{OfType string}}",
+		// types whose cty representation holds maps of its own (attribute types, optional attributes)
+		"Any{object_any_mix}", "LiteralType{object_optional}", "Any{object_optional}"} {
 		want[n] = true
 	}
 	for i := range cat {
@@ -68,7 +72,7 @@ func mcWorlds(tier string) []explore.Case {
 				continue
 			}
 			for ti, v := range consTexts {
-				if tier != "thorough" && ti%2 == 1 && !strings.HasPrefix(e.Cons.Name, "Any{string}") {
+				if tier != "thorough" && ti%2 == 1 && !strings.HasPrefix(e.Cons.Name, "Any{string}") && !strings.Contains(e.Cons.Name, "{object_") {
 					continue
 				}
 				seeds := gen.ConsSeeds(v)
